@@ -9,6 +9,7 @@ package c20
 
 import (
 	"bufio"
+	"bytes"
 	"context"
 	"encoding/json"
 	"fmt"
@@ -392,16 +393,24 @@ func runCrashPoint(s spec) (err error, acked int) {
 		return fmt.Errorf("VERIF-INCONCLUSIVE: child acknowledged %d calls, crash point was %d: %s", len(acks), s.K, stderr.String()), len(acks)
 	}
 	// read the target
+	// A process that dies while one of its threads is inside write(2) may leave the front part of
+	// that write in the file (the kernel checks for a fatal signal between pages): the unterminated
+	// tail of a target belongs to a call that never returned and is not a line.
+	whole := func(b []byte) []byte {
+		i := max(bytes.LastIndexByte(b, '\n'), bytes.LastIndexByte(b, ';'))
+		return b[:i+1]
+	}
 	var data []byte
 	switch s.Kind {
 	case "console", "consolelogger", "console+loggerlayout", "rawhandle-console", "default-after-destroy":
 		data, _ = os.ReadFile(stdoutPath)
+		data = whole(data)
 	default:
 		ents, _ := os.ReadDir(s.Dir)
 		for _, e := range ents {
 			if strings.HasPrefix(e.Name(), "out.log") {
 				b, _ := os.ReadFile(filepath.Join(s.Dir, e.Name()))
-				data = append(data, b...)
+				data = append(data, whole(b)...)
 			}
 		}
 	}
